@@ -15,6 +15,14 @@ before the submitting thread attached its callback, `add_done_callback` runs the
 submitting thread, exactly like concurrent.futures.
 
 The futures are real concurrent.futures.Future objects.
+
+Fine-grained mode (owner.fine): `finish c` runs as a greenlet (no OS threads; the owner passes the
+baton explicitly) that can be suspended at the visible operations of the completion callback --
+SimLock acquire / release, the scripted selector's register / unregister, VDeque (worker._keep)
+append / appendleft / popleft / remove, each announced through owner.vop(kind) -- and resumed at
+a later injection point of the main thread; SimLock then really excludes (a pool greenlet that
+finds it taken yields as blocked; the main thread that finds it taken runs the holder until it
+releases).  The same operations of the main thread become injection points `v:<kind>`.
 """
 import sys
 from collections import deque
